@@ -1,6 +1,7 @@
 import CssVerif.Model.EncLadder
 import CssVerif.Model.EncEscape
 import CssVerif.Model.EncSheet
+import CssVerif.Model.EncTok
 /-!
 Driver for C08. One request per line:
 
@@ -14,6 +15,9 @@ unescs <text>                                 -> token value (stringsub: STRING,
 ok | oks <unrepresentable code points> <text> -> 0 | 1
 scan <text>                                   -> items
 sheet <op>*                                   -> one result per op, then the final rule list
+tokesc <unrepresentable code points> <text>   -> g=<guard> A=<tokens of the text> B=<tokens of the escaped text>
+                                                 (token = type/value/source span; `Tok.tokenize`, partial-sheet mode)
+first <unrepresentable code points> <text>    -> g=<guard> then per production name:first(text):first(escaped):elen
 ```
 `<override>`, `<parent>`, `<enc>`, `<http>`: `N` = None, otherwise a dotted-hex string (`-` = empty string).
 `<shape>`: `none` | `badlen` | `nc:<http>` | `p:<http>:<content>`;  `<content>`: `B:<hex>` | `T:<hex>`;
@@ -131,6 +135,33 @@ def cmdLoad (mode fuel enc href : String) (rest : List String) : String :=
     else "bad-op"
   | _, _, _ => "bad-op"
 
+def showTok (it : CssVerif.Tok.Item) : String := it.typ ++ "/" ++ encCps it.value ++ "/" ++ encCps it.span
+
+def showToks (r : CssVerif.Tok.Res) : String :=
+  let items := r.tokens
+  let body := if items.isEmpty then "-" else ",".intercalate (items.map showTok)
+  match r.stop with
+  | .done _ _ => body
+  | _ => body ++ ",STOP"
+
+def cmdTokEsc (u t : List Nat) : String :=
+  let rep := fun c => !u.contains c
+  "g=" ++ (if CssVerif.EncTok.guard rep t then "1" else "0") ++
+    " A=" ++ showToks (CssVerif.Tok.tokenize t false true) ++
+    " B=" ++ showToks (CssVerif.Tok.tokenize (escape rep t) false true)
+
+def showFirst : Option Nat → String
+  | none => "N"
+  | some l => toString l
+
+def cmdFirst (u t : List Nat) : String :=
+  let rep := fun c => !u.contains c
+  let e := escape rep t
+  "g=" ++ (if CssVerif.EncTok.guard rep t then "1" else "0") ++ " " ++
+    " ".intercalate (CssVerif.Gen.C05.productions.map fun p =>
+      p.1 ++ ":" ++ showFirst (p.2.first t) ++ ":" ++ showFirst (p.2.first e) ++ ":" ++
+        showFirst ((p.2.first t).map (CssVerif.EncTok.elen rep t)))
+
 def handle (line : String) : String :=
   match words line with
   | "readurl" :: ov :: pa :: sh :: rest => cmdReadUrl ov pa sh rest
@@ -154,6 +185,12 @@ def handle (line : String) : String :=
       | some t => " ".intercalate ((scan t).map showItem)
       | none => "bad-op"
   | "sheet" :: ops => CssVerif.EncSheet.sheetCmd ops
+  | ["tokesc", u, t] => match decCps u, decCps t with
+      | some u, some t => cmdTokEsc u t
+      | _, _ => "bad-op"
+  | ["first", u, t] => match decCps u, decCps t with
+      | some u, some t => cmdFirst u t
+      | _, _ => "bad-op"
   | _ => "bad-op"
 
 def main : IO Unit := serve handle
